@@ -619,7 +619,7 @@ def bip38_encrypt(private_hex, address, password, flagbyte=b'\xe0'):
     return base58encode(encrypted_privkey)
 
 
-def bip38_intermediate_password(passphrase, lot=None, sequence=None, owner_salt=os.urandom(8)):
+def bip38_intermediate_password(passphrase, lot=None, sequence=None, owner_salt=None):
     """
     Intermediate passphrase generator for EC multiplied BIP38 encrypted private keys.
     Source: https://github.com/meherett/python-bip38/blob/master/bip38/bip38.py
@@ -632,7 +632,7 @@ def bip38_intermediate_password(passphrase, lot=None, sequence=None, owner_salt=
     :type lot: int
     :param sequence: Sequence number  between 0 <= sequence <= 4095 range, default to ``None``
     :type sequence: int
-    :param owner_salt: Owner salt, default to ``os.urandom(8)``
+    :param owner_salt: Owner salt, if not specified 8 fresh random bytes are drawn for every call
     :type owner_salt: str, bytes
 
     :returns str: Intermediate passphrase
@@ -642,6 +642,8 @@ def bip38_intermediate_password(passphrase, lot=None, sequence=None, owner_salt=
 
     """
 
+    if owner_salt is None:
+        owner_salt = os.urandom(8)
     owner_salt = to_bytes(owner_salt)
     if len(owner_salt) not in [4, 8]:
         raise ValueError(f"Invalid owner salt length (expected: 4 or 8 bytes, got: {len(owner_salt)})")
@@ -674,7 +676,7 @@ def bip38_intermediate_password(passphrase, lot=None, sequence=None, owner_salt=
     return pubkeyhash_to_addr_base58(magic + owner_entropy + HDKey(pass_factor).public_byte, prefix=b'')
 
 
-def bip38_create_new_encrypted_wif(intermediate_passphrase, compressed=True, seed=os.urandom(24),
+def bip38_create_new_encrypted_wif(intermediate_passphrase, compressed=True, seed=None,
                                    network=DEFAULT_NETWORK):
     """
     Create new encrypted WIF BIP38 EC multiplied key. Use :func:`bip38_intermediate_password` to create an
@@ -684,7 +686,7 @@ def bip38_create_new_encrypted_wif(intermediate_passphrase, compressed=True, see
     :type intermediate_passphrase: str
     :param compressed: Compressed or uncompressed key
     :type compressed: boolean
-    :param seed: Seed, default to ``os.urandom(24)``
+    :param seed: Seed, if not specified 24 fresh random bytes are drawn for every call
     :type seed: str, bytes
     :param network: Network name
     :type network: str
@@ -693,6 +695,8 @@ def bip38_create_new_encrypted_wif(intermediate_passphrase, compressed=True, see
 
     """
 
+    if seed is None:
+        seed = os.urandom(24)
     seed_b = to_bytes(seed)
     intermediate_password_bytes = change_base(intermediate_passphrase,58, 256)
     check = intermediate_password_bytes[-4:]
